@@ -10,4 +10,9 @@ open BHS.Props.C08
 #print axioms C08_bad_key
 #print axioms C08_zero
 #print axioms C08_interleaved
+#print axioms C08_walk_reachable
+#print axioms C08_lcAsc_is_chain_reachable
+#print axioms C08_bad_key_reachable
+#print axioms C08_zero_reachable
+#print axioms C08_interleaved_reachable
 #print axioms BHS.Props.SqlShape.page_statements
